@@ -3,7 +3,7 @@
 
 use std::{fmt, io};
 
-use futures_util::{SinkExt as _, StreamExt as _};
+use futures_util::{FutureExt as _, SinkExt as _, StreamExt as _};
 use tokio::io::{AsyncRead, AsyncWrite};
 use tokio_util::codec::Framed;
 
@@ -65,10 +65,18 @@ where
         framed.read_buffer_mut().clear();
         framed.send(req_adu).await?;
 
-        let res_adu = framed
-            .next()
-            .await
-            .unwrap_or_else(|| Err(io::Error::from(io::ErrorKind::BrokenPipe)))?;
+        let res_adu = match framed.next().await {
+            Some(Ok(res_adu)) => res_adu,
+            Some(Err(err)) => {
+                // After yielding an error `Framed` terminates the stream once, i.e. the
+                // next poll returns `None` without reading from the transport. Consume
+                // this marker now, otherwise the following call would give up before
+                // receiving its response.
+                drop(framed.next().now_or_never());
+                return Err(err.into());
+            }
+            None => return Err(io::Error::from(io::ErrorKind::BrokenPipe).into()),
+        };
         let ResponseAdu {
             hdr: res_hdr,
             pdu: res_pdu,
